@@ -469,7 +469,10 @@ func (a Int) divMod(b Int) (Object, Object, error) {
 	if b == 0 {
 		return nil, nil, divisionByZero
 	}
-	// Can't overflow
+	if a == IntMin && b == -1 {
+		// The only overflowing case
+		return (*BigInt)(new(big.Int).Neg(big.NewInt(IntMin))), Int(0), nil
+	}
 	result, remainder := Int(a/b), Int(a%b)
 	// Implement floor division
 	negativeResult := (a < 0)
